@@ -111,8 +111,78 @@ def _local_callee(W, bv, x):
     return cv if cv.argc == len(x[2]) else None
 
 
-def leaves(W, bv, t, bodies=None, depth=0):
-    """-> list of leaves; `bodies` (a list) collects the BVs whose code contributed alternatives."""
+RESULT = "std::result::Result::<T, E>::"
+
+
+def res_leaves(W, bv, t, bodies=None, depth=0):
+    """Leaf alternatives of a Result-valued term: [("ok", payload) | ("err", payload) | ("other", term)].
+    `map`/`map_err`/`and_then`/`ok_or` and merges are looked through; any other Result-valued term r is its own two
+    alternatives (r@Ok.0, r@Err.0)."""
+    if bodies is None:
+        bodies = []
+    if depth > 12:
+        return [("other", t)]
+    t = _unref(t)
+    if t[0] == "phi":
+        out = []
+        for a in t[1]:
+            out += res_leaves(W, bv, a, bodies, depth + 1)
+        return out
+    if t[0] == "agg":
+        vn = (t[2] or "").split("::")[-1]
+        if vn in ("Ok", "Err") and len(t[3]) == 1:
+            return [(vn.lower(), t[3][0])]
+        return [("other", t)]
+    if t[0] == "call":
+        callee = lib.norm(t[1])
+        if callee in (RESULT + "map", RESULT + "map_err", RESULT + "and_then") and len(t[2]) == 2:
+            inner = res_leaves(W, bv, t[2][0], bodies, depth + 1)
+            clo = _closure_of(t[2][1])
+            fnp = _unref(t[2][1])
+            fdef = None
+            if clo is None and fnp[0] == "const" and isinstance(fnp[1], dict):
+                ty_ = bv.crate.types[fnp[1]["t"]] if isinstance(fnp[1].get("t"), int) else {}
+                fdef = fnp[1].get("def") or (ty_.get("d") if ty_.get("k") == "fndef" else None)
+            side = "err" if callee.endswith("map_err") else "ok"
+            out = []
+            for l in inner:
+                if l[0] != side:
+                    out.append(l)
+                    continue
+                if clo is not None and clo[2] in W.by_id:
+                    cb = W.bv(clo[2])
+                    if cb not in bodies:
+                        bodies.append(cb)
+                    body = simplify(lib.subst_params(_ann(cb), [clo, l[1]]))
+                    if callee.endswith("and_then"):
+                        out += res_leaves(W, cb, body, bodies, depth + 1)
+                    elif side == "err":
+                        # keep where the error came from (the closure may turn it into `()` after logging it)
+                        out.append((side, ("call", "map_err", [l[1], body], None, "map_err")))
+                    else:
+                        out.append((side, body))
+                elif fdef:
+                    app = ("call", fdef, [l[1]], None, fdef.split("::")[-1])
+                    if callee.endswith("and_then"):
+                        out += [("ok", ("field", ("downcast", app, "Ok"), "0", 0)), ("err", ("field", ("downcast", app, "Err"), "0", 0))]
+                    else:
+                        out.append((side, app))
+                else:
+                    return [("other", t)]
+            return out
+        if callee == OPTION + "ok_or" and len(t[2]) == 2:
+            out = []
+            for l in leaves(W, bv, t[2][0], bodies, depth + 1):
+                out.append(("ok", l[1]) if l[0] == "some" else (("err", t[2][1]) if l[0] == "none" else ("other", t)))
+            return out
+        if callee in lib.WRAPPERS and callee.split("::")[-1] in ("clone", "into", "from") and t[2]:
+            return res_leaves(W, bv, t[2][0], bodies, depth + 1)
+    return [("ok", ("field", ("downcast", t, "Ok"), "0", 0)), ("err", ("field", ("downcast", t, "Err"), "0", 0))]
+
+
+def leaves(W, bv, t, bodies=None, depth=0, none_from=None):
+    """-> list of leaves; `bodies` (a list) collects the BVs whose code contributed alternatives; `none_from` (a list)
+    collects the error payloads that `Result::ok()` turned into None."""
     if bodies is None:
         bodies = []
     if bv not in bodies:
@@ -124,7 +194,7 @@ def leaves(W, bv, t, bodies=None, depth=0):
     if k == "phi":
         out = []
         for a in t[1]:
-            out += leaves(W, bv, a, bodies, depth + 1)
+            out += leaves(W, bv, a, bodies, depth + 1, none_from)
         return out
     if k == "agg":
         vn = (t[2] or "").split("::")[-1]
@@ -140,7 +210,7 @@ def leaves(W, bv, t, bodies=None, depth=0):
             inner = _unref(inner[2][0])
         if inner[0] == "call" and lib.norm(inner[1]).endswith("::transpose") and inner[2]:
             out = []
-            for l in leaves(W, bv, inner[2][0], bodies, depth + 1):
+            for l in leaves(W, bv, inner[2][0], bodies, depth + 1, none_from):
                 out.append(("some", ("field", ("downcast", l[1], "Ok"), "0", 0)) if l[0] == "some" else l)
             return out
     if k == "call":
@@ -157,11 +227,23 @@ def leaves(W, bv, t, bodies=None, depth=0):
         if callee in ("core::bool::<impl bool>::then_some",) or callee.endswith("bool::then_some"):
             return [("none",), ("some", t[2][1])]
         if callee in lib.WRAPPERS and callee.split("::")[-1] in ("clone", "into", "from") and t[2]:
-            return leaves(W, bv, t[2][0], bodies, depth + 1)
+            return leaves(W, bv, t[2][0], bodies, depth + 1, none_from)
+        if callee == RESULT + "ok" and len(t[2]) == 1:
+            out = []
+            for l in res_leaves(W, bv, t[2][0], bodies, depth + 1):
+                if l[0] == "ok":
+                    out.append(("some", l[1]))
+                elif l[0] == "err":
+                    out.append(("none",))
+                    if none_from is not None:
+                        none_from.append(l[1])
+                else:
+                    return [("other", t)]
+            return out
         if callee == OPTION + "filter" and len(t[2]) == 2:
             # x.filter(p): every Some alternative of x may also become None (the predicate is checked by whoever needs it)
             out = []
-            for l in leaves(W, bv, t[2][0], bodies, depth + 1):
+            for l in leaves(W, bv, t[2][0], bodies, depth + 1, none_from):
                 if l[0] == "some":
                     out += [("none",), l]
                 elif l[0] == "none":
@@ -192,13 +274,13 @@ def leaves(W, bv, t, bodies=None, depth=0):
                 if cb not in bodies:
                     bodies.append(cb)
                 if callee.endswith("and_then"):
-                    return [("none",)] + leaves(W, cb, body, bodies, depth + 1)
+                    return [("none",)] + leaves(W, cb, body, bodies, depth + 1, none_from)
                 return [("none",), ("some", body)]
             return [("other", t)]
         cv = _local_callee(W, bv, t)
         if cv is not None:
             body = simplify(lib.subst_params(cv.trace_local(0), list(t[2])))
-            return leaves(W, cv, body, bodies, depth + 1)
+            return leaves(W, cv, body, bodies, depth + 1, none_from)
     return [("other", t)]
 
 
